@@ -489,6 +489,22 @@ def run(F, rep):
         from rules import c12
         if F.funcs.get(c12.TP + "bytes_to_tuples") and F.funcs.get(c12.TP + "tuples_to_bytes"):
             c12.tp4_rule(F, rep, "C02-TUPLE", want=("fmt",))
+    # (MML) the match-length bias of the LZ text is the min_match_len recorded in the params stream: the coder's field is a
+    # plain copy of its constructor argument (no clamp, no arithmetic), so that a reader applying the recorded value decodes
+    # what was written
+    lzn = F.funcs.get("ragc_core::lz_diff::LZDiff::new")
+    if rep.floor("C02-MML", 1 if lzn else 0, 1, "LZDiff::new"):
+        exn = Exprs(lzn)
+        stored = None
+        for b in lzn.blocks:
+            for s_ in b["stmts"]:
+                if s_["k"] == "assign" and s_["rv"]["k"] == "agg" and s_["rv"].get("adt", "").endswith("lz_diff::LZDiff"):
+                    d = dict(zip(s_["rv"]["fields"], [strip_tags(exn.operand(o)) for o in s_["rv"]["ops"]]))
+                    stored = d.get("min_match_len")
+        pn = [nm for l, nm in sorted(lzn.arg_names().items())]
+        ok = isinstance(stored, tuple) and stored[0] == "param" and stored[1] in pn
+        rep.ob("C02-MML", "LZDiff keeps the minimum match length it is given (the value the params stream records) as the bias of every match length", ok,
+               detail="field min_match_len = %s" % fmt(stored), site="%s:%d" % (lzn.file, lzn.line_lo), key="C02-MML | LZDiff::new | bias is the parameter")
     # the collection varint as it is computed (not only its constants): AGC v3 prefix code at every class end and byte-carry point
     if getattr(F, "cfg", "dev") == "dev":
         from rules import c03 as c03v
